@@ -17,12 +17,19 @@ CLAIMS = {
    "boundary points contribute zero, non-negative, dominated points irrelevant (hv (nds P) = hv P via C11), scaling c^d (justifies the per-case integer scaling), and the fast evaluators the driver runs (compressed grid, re-compressed slices, with nds at every level) all EQUAL the cell count (d-dimensional grid-refinement theorem). "
    "Tie: extensional correspondence - exact equality on lattice sets (exhaustive to 3 points on {0..4}^m, m<=3, sampled beyond), tie-heavy 5-7 objective sets, dyadic sets; 1e-9 relative on floats; metamorphic clauses (monotone / permutation+duplication / boundary) and 'caller's array unchanged' decided on the implementation's outputs by extracted oracles; ObjectiveRecorder callback values.",
    note="binary64 arithmetic of the implementation is exact on lattice/dyadic streams; the implementation's sweep algorithm is tied to the model only by behaviour; aliasing ('array unchanged') is a run-time observation."),
+ "C13": dict(cat="proof", text="Coq theorems over ALL histories of the 17 public storage methods (any ids, keys, values): fresh ids, refinement to the abstract map search->job->key->value including the error answers, frame/isolation, created ids stay, final job set = union, every interleaving of atomic client operations is a sequential history for which the per-client read-your-writes oracle holds; non-atomic create refuted; pinned search-value namespace refuted (F32). "
+   "Tie: step-wise refinement on MemoryStorage AND SharedMemoryStorage (every return value + full public audit after every step; exhaustive length-4 histories on the model side, sampled on both storages; random histories to length 60), snapshot/aliasing by keeping and re-comparing loaded objects, 2-8 concurrent client processes judged by extracted oracles, and a bytecode/lock atomicity certificate of create_new_search/create_new_job. PARTIAL: real OS schedules are sampled; the snapshot clause is carried by correspondence only.",
+   note="CPython GIL / eval-breaker placement and BaseManager (one server thread per connection) trusted; values are opaque serialisations."),
  "C14": dict(cat="proof", text="Coq theorems about the per-job status machine of execute()/_on_done/close (every sequence of status writes, run-function polls and returns the code can produce, any position of the deadline): "
    "statuses only move forward along READY->RUNNING->(DONE | CANCELLING->CANCELLED) (READY/RUNNING->CANCELLED at close), a terminal status is final, a running job always sees the status written last (so CANCELLING from its write until the job returns), "
    "a job told to cancel is never reported DONE, DONE / CANCELLED-after-CANCELLING are only written after the run-function returned (value kept); the enum codes are tied to the source by a regenerated fact (C14_status_codes). "
    "Tie: real searches with a timeout (serial, thread) under a logging storage and logging run-functions; the extracted oracle ok_C14 (soundness theorem C14_oracle_sound) replays every job's events on the machine and checks the results table "
    "(one row per job, terminal status = last write, value kept, jobs running across the deadline told to cancel and reported CANCELLED, no activity after search() returned). PARTIAL: real time is not modelled.",
    note="the deadline instant is represented by a harness sentinel 1.5 s after it; wait_for/shield/thread pools are trusted; process/loky backends are not exercised by this harness."),
+ "C16": dict(cat="proof", text="Coq theorems over the shared-storage model of Idle/Const/ASHA/Median stoppers for every protocol run (record then stopped, budgets 1,2,3..) of any number of evaluations in any operation-level interleaving: stop at the max_steps-th observation at the latest, stop right after a failure, values stored under a rung were observed at that rung's budget (same-budget invariant), "
+   "an evaluation at least as good as every competitor recorded at its budget is never stopped early, ASHA stops only outside the top 1/reduction_factor, every decision equals a history-only reference rule; default constructor arguments are regenerated facts (C16_default_best_never_stopped); pinned MedianStopper refuted (F16). "
+   "Tie: step-wise refinement of real stopper objects on RunningJobs sharing a MemoryStorage (every stopped() result and the metadata after every operation) + the extracted monitor on the implementation's traces; exhaustive interleavings of 3 evaluations x 4 steps; real RandomSearch runs.",
+   note="objectives are dyadic numbers on one integer scale (epsilon included); numpy sort/median trusted; MemoryStorage metadata calls are C13's subject."),
  "C17": dict(cat="proof", text="Coq theorems for EVERY schedule of the mechanism model of the (repaired) queued evaluator, any queue / pop count / jobs / workers: "
    "conservation (queue + resources in jobs' hands is always a permutation of the initial queue), disjointness of concurrently held resources, exactly pop resources per job, "
    "no deadlock and liveness (some schedule finishes every job) when pop <= |queue|; the pinned shared-slot design is refuted by witnesses (shared resource, underflow = F17). "
@@ -35,11 +42,23 @@ CLAIMS = {
    "the pinned code is refuted by three witnesses (F05). Tie: sequences of <= 4 real search() calls (RandomSearch / CBO-DUMMY, serial and thread backends) with a counting run-function: the extracted oracle ok_history decides the statement, "
    "and the model's prediction of the number of new evaluations from the observed gather sizes must equal the observed number.",
    note="gather('BATCH',1) returning between 1 and in-flight jobs is assumed here (proved/checked by C01); wall-clock makes timed calls uncounted (only the calls after them are)."),
+ "C05": dict(cat="proof", text="Coq theorems over Q: exploitation-only acquisition on a fully observed candidate set proposes the candidate with the LARGEST objective (single objective: any strictly increasing scaler; multi-objective, repaired scalarisation relative to the utopia point: ideal / weakly-Pareto / Pareto candidates for the five scalarisers as far as each method allows), "
+   "the max<->min name tables of the source (regenerated facts, C05_name_maps) dualise lies, failure values and UCB/LCB, what CBO tells the optimizer is the negated objective, scalarisers monotone on the orthant above the utopia point with the utopia point as unique minimum, argmin invariant under positive rescaling and shifts; pinned unshifted Chebyshev refuted (F07); PBI/Quadratic dominance refuted (inherent, F07b open finding). "
+   "Tie: functional correspondence of every Mo*Function, lies/imputation (spy optimizer), fit targets (spy regressor), acquisition sign, scalers; deterministic end-to-end exploit cases on fully told finite spaces (quick tier); statistical end-to-end (thorough, labelled a test). PARTIAL: 'later proposals concentrate at the maximiser' is a statistical test, not a theorem.",
+   note="sklearn scalers and forest interpolation (splitter best, min_samples_split=2) are oracles; numpy exact on small dyadics; scalar values compared up to one additive constant per history."),
+ "C06": dict(cat="proof", text="Coq theorems over extended numbers (finite | nan | +-inf) and label tokens, for ALL success/failure histories, the three policies, single/multi objective: every value handed to the surrogate fit is finite (for ANY length- and finiteness-preserving scaler/scalariser; ExhaustedFailures characterised exactly), failed evaluations of all four kinds are marked with failure strings in every objective cell, "
+   "failure labels and failure kinds do not influence the optimizer state (relabelling theorems), failures never count toward n_initial_points, no failure enters the RegularizedEvolution population, the constant-liar lie is well shaped; the failure marker / option tables are regenerated facts consumed by C06_markers; pinned code refuted (F08 tuple nan, F31 ragged lie). "
+   "Tie: functional correspondence of _on_done, CBO._tell (spy optimizer), _filter_failures, Optimizer.tell (spy estimator), RegularizedEvolution._tell; real searches replaying failure patterns under two labelings, decided by the extracted oracle ok_search.",
+   note="scaler/scalariser are hypotheses (identity + linear-relative-to-utopia instances used in the tie); surrogate fit modelled as 'finite y'; pandas keeps F-cells as strings."),
  "C09": dict(cat="proof", text="Coq theorems over a rational model of every dimension kind / prior / transform with the binary64 rounding R, log10 and base**x as universally quantified oracles: exact round trip for exact arithmetic (any number of rows), "
    "Integer (uniform) and Categorical values round-trip exactly under ANY admissible rounding (relative error <= 2^-52, magnitudes <= 2^47), every round-tripped / decoded point is a member of the space for ANY R, lg, pw (repaired code with the Real clip), shapes, transformed values inside transformed_bounds for monotone R; "
    "pinned code refuted by witnesses (F02 no clip, F13 Identity rows). PARTIAL: Integer log-uniform exactness only under an explicit accuracy hypothesis on pow/log10 (C09_int_any_prior_partial). "
    "Tie: functional correspondence (model run on numpy's own log/pow values as tables) + extracted oracle ok_C09 (proved equivalent to Spec_C09) on the implementation's exact float values, on generated dimensions, spaces and HpProblem conversions.",
    note="libm log10/pow and binary64 rounding are oracles (tolerances of 4-16 ulp scaled by the condition number on the log path, defined in c09.py); sklearn LabelBinarizer / numpy round, clip trusted."),
+ "C18": dict(cat="proof", text="Coq theorems over Q for any non-empty list of per-tree (mean, leaf impurity) oracle values: law of total variance for the clamped values the code returns (total = aleatoric + epistemic, min_variance >= 0), all three variances >= 0 before clamping (clamps are identities on exact values), the three request forms share one mean = average of the tree means, "
+   "any permutation / any partition into parallel chunks gives the same sums (n_jobs clause), epistemic depends on the tree means only and the 'd' acquisition variants only on it, scale equivariance (justifies the integer transfer); oracles reflected. "
+   "Tie: functional correspondence on real fitted forests (RF/ET, bootstrap, splitters, min_samples_split, min_variance, n_jobs 1 vs 4) with per-tree values read as exact rationals; LCBd/EId/PId/MESd checked against the epistemic part. PARTIAL: sklearn tree fitting is an oracle; binary64 rounding bounded by tolerances (1e-12 mean, 1e-9 of the cancelling terms), not modelled.",
+   note="sqrt is an oracle (squares compared); joblib threading backend trusted."),
  "C19": dict(cat="proof", text="Coq theorems over a rational, cell-wise model of the four aggregators (weights, numpy.ma masks = members dropped with renormalisation): uniform weights = None, rescaling and permutation invariance, masked = removed = weight 0, member splitting, "
    "mean between the members' extremes, law of total variance for ANY weights (mixture variance = aleatoric + epistemic, all >= 0), aggregated probabilities form a distribution, confidence range and non-negative decomposition, entropy decomposition for any log oracle (Jensen under a concavity hypothesis), "
    "mode = argmax of normalised weighted votes with uncertainty in range; homogeneity theorems justify the integer scaling; every boolean oracle is proved equivalent to its Spec; pinned behaviour refuted by witnesses (F18, F24, F28). "
